@@ -18,7 +18,7 @@ C20_TAGS = {"LAYOUT", "EV", "RC", "CNT", "A", "AT", "BUF", "FAULT", "PARSE"}
 MECH = {"aC", "aP", "aB", "aT", "null", "s1", "s2", "s3", "s4", "full", "multi"}
 
 # (kind, quick cases, thorough cases)
-GENS = [("run", 700, 25000), ("badstart", 400, 6000), ("deep", 40, 2500)]
+GENS = [("run", 4000, 40000), ("badstart", 2000, 10000), ("deep", 300, 4000)]
 
 
 def split_cases(text):
